@@ -55,6 +55,10 @@ Clause(r, c) ==
     [] c = "C13.count" -> r.status = "ok" /\ r.count >= 0
                           /\ r.count <= SumSeq([k \in DOMAIN r.files |->
                                                    IF r.files[k].after \in {"absent", "n/a"} THEN 0 ELSE r.files[k].given])
+    \* the same bound for runs that may legitimately fail (something in the destination is in the way of a copy):
+    \* either the run reports the failure, or what it counts is there
+    [] c = "C13.countsafe" -> r.status # "ok" \/ (r.count >= 0 /\ r.count <= SumSeq([k \in DOMAIN r.files |->
+                                                   IF r.files[k].after \in {"absent", "n/a"} THEN 0 ELSE r.files[k].given]))
     [] c = "C14.sources" -> r.sources_unchanged /\ r.metas_unchanged
     [] c = "C14.fulllen" -> FullLengthKept(r.files)
     [] c = "C14.copy" -> \A k \in DOMAIN r.written :
